@@ -61,6 +61,7 @@ package embed
 //@   requires picture != nil
 //@   ensures [C01,C07] #only-a-source-is-renamed forall(x[*html.Node], implies(old(x.Data) != "source", x.Data == old(x.Data)))
 //@   loop 0 invariant forall(x[*html.Node], x.Data == old(x.Data))
+//@   loop 0 invariant forall(i, ITER <= i && i < old(ebtLen(picture, "*")), as(old(ebtAt(picture, "*", i)), *html.Node).Parent != nil)
 
 // findRealFigureImage may move an image out of <noscript> and parses noscript text into fresh nodes; it renames nothing.
 //@ func (*ImageExtractor).findRealFigureImage(figure)
